@@ -57,7 +57,7 @@ func (c19) Rule() string {
 }
 
 var c19Queries = []string{"write-fasta", "write-phylip", "write-phylip-strict", "write-nexus", "write-clustal", "write-stockholm", "write-paml", "stats", "consensus", "entropy-pssm", "profile",
-	"distmatrix", "mldist", "pwalign", "longest-orf", "unalign", "transpose", "bootstrap", "conservation", "diffs", "mutlist", "string", "translate-copy", "identical", "ref-sites", "split"}
+	"distmatrix", "mldist", "pwalign", "longest-orf", "unalign", "transpose", "bootstrap", "conservation", "diffs", "mutlist", "string", "translate-copy", "identical", "ref-sites", "split", "phase"}
 var c19Copies = []string{"clone", "clone-seqbag", "sub-align", "select-sites", "seq-clone"}
 var c19Mutations = []string{"revcomp-some", "diff-with-first", "set-char", "replace-char", "revcomp", "to-lower", "to-upper", "mask", "replace", "mutate", "write-through-seq-clone"}
 
@@ -326,6 +326,44 @@ func (c19) Run(ctx *Ctx, ci interface{}) (o Outcome) {
 							pa.SetSequenceChar(0, 0, '#')
 						}
 					}
+				}
+			}
+		case "phase":
+			// phasing is a query on both sets it is given. A pooled object cannot serve (a sequence without any match
+			// of the reference makes a worker crash, outside C16's quantifier): the two sets are drawn here, from the
+			// operation's own seed, by C16's generator, and compared with their snapshots when the stream is drained
+			isQuery = true
+			{
+				cc := c16{}.Gen(uint64(op.Seed), "quick", false).(*C16Case)
+				cc.BadAt = -1
+				orfs, seqs, _, _ := cc.bags()
+				beforeSeqs, beforeOrfs := snapshotAlign(seqs), ""
+				if orfs != nil {
+					beforeOrfs = snapshotAlign(orfs) + fmt.Sprint(orfs.Alphabet())
+				}
+				ph := align.NewPhaser()
+				ph.SetCpus(1 + op.N%2)
+				ph.SetReverse(cc.Reverse)
+				ph.SetCutEnd(cc.CutEnd)
+				ph.SetTranslate(cc.Translate, cc.Code)
+				var in align.SeqBag
+				if orfs != nil {
+					in = orfs
+				}
+				if ch, err := ph.Phase(in, seqs); err == nil {
+					for r := range ch {
+						if r.Err == nil && r.NtSeq != nil && r.NtSeq.Length() > 0 {
+							r.NtSeq.SequenceChar()[0] = '#' // what is returned is the caller's to edit
+						}
+					}
+				}
+				if snapshotAlign(seqs) != beforeSeqs {
+					fail("input-modified", "Phase (or an edit of a sequence it returned) changed the sequences it was given:\nbefore:\n%s\nafter:\n%s", beforeSeqs, snapshotAlign(seqs))
+					return
+				}
+				if orfs != nil && snapshotAlign(orfs)+fmt.Sprint(orfs.Alphabet()) != beforeOrfs {
+					fail("input-modified", "Phase changed the reference ORFs it was given (translate=%v):\nbefore:\n%s\nafter:\n%s", cc.Translate, beforeOrfs, snapshotAlign(orfs)+fmt.Sprint(orfs.Alphabet()))
+					return
 				}
 			}
 		case "identical":
